@@ -100,3 +100,87 @@ Example histA_repaired :
   leaf_view (step_state true true true (run true true true init histA) loseA) 0 r2a = Some [(1, Meta 6 2 true)] /\
   stored (step_state true true true (run true true true init histA) loseA) (0, 5).
 Proof. split; [reflexivity|]. split; [reflexivity|]. vm_compute. reflexivity. Qed.
+
+
+(* ---------------- attachment compaction: two findings ----------------
+   (C) [compaction-same-name-leaf-attachment-unmarked]  REPAIRED in commit 360f98e; the witness is kept for the
+       behaviour before it ([bd = false]).  attachmentCompactMarkPhase collected the data documents to stamp in a
+       Go map keyed by the attachment NAME (attachmentKeys[attName] = attKey): of two revision bodies of one
+       document that use the same name for different legacy contents -- the winner and a conflicting leaf that
+       both replaced "a" -- only the one handled last was stamped; the other one's data was swept although a leaf
+       references it.  Repair: key the map by the data document id ([bd = true]).
+   (D) [compaction-resume-after-failed-mark-purges-referenced]  KNOWN FINDING of the current tree.  When the mark
+       phase aborts (storage error on an out-of-line body or on a stamp) the manager's status is "error"; Start
+       without reset=true resumes the SAME compaction id in phase "mark" from the feed checkpoint.  The feed
+       clients (base/dcp_client_worker.go, and rosmar) advance the checkpoint past every event they delivered
+       whatever the callback returned, so the resumed mark phase starts behind the failed document (and behind
+       whatever was delivered before the feed closed), stamps nothing for them, and the sweep purges their
+       attachments.  Repair: do not checkpoint the event whose callback failed / restart the mark phase from the
+       beginning when the previous state is error ([fixed = true]). *)
+From SG Require Import C14.Compaction C14.CompactionTheorems.
+
+(* (C): winner a=1, inline conflicting leaf a=2, both data documents present, no faults *)
+Definition cstoreC : cp_store :=
+  CpSt [CpDoc true [(0, CpAtt 1 true)] [[(0, CpAtt 2 true)]] []] [] [(1, []); (2, [])] None.
+
+(* C14_compaction_safety for the name-keyed map, with the hypothesis the repaired map gets by with *)
+Definition C14_compaction_safety_name_keyed_statement : Prop :=
+  forall s r s' res,
+    cp_run false false s r = (s', res) -> cp_fresh_mode s r -> cp_flags_ok s -> cp_rstatus res = CpCompleted ->
+    forall g, cp_referenced s g -> cp_present s g -> cp_present s' g.
+
+Lemma C14_compaction_same_name_refuted : ~ C14_compaction_safety_name_keyed_statement.
+Proof.
+  intros F.
+  assert (W : cp_flags_ok cstoreC) by (apply cp_flags_okb_ok; vm_compute; reflexivity).
+  assert (R : cp_referenced cstoreC 1).
+  { eexists. split; [left; reflexivity|]. exists [(0, CpAtt 1 true)]. split; [left; reflexivity|left; reflexivity]. }
+  assert (P : cp_present cstoreC 1) by (left; reflexivity).
+  pose proof (F cstoreC (CpRun 1 true false (CpF [] []) 0 []) _ _ eq_refl (or_introl eq_refl) W eq_refl 1 R P) as K.
+  vm_compute in K. destruct K as [K|[]]. discriminate K.
+Qed.
+
+(* the same run with the map keyed by the data document id keeps both, and counts 2 marked *)
+Example cstoreC_repaired :
+  map fst (cp_atts (fst (cp_run true false cstoreC (CpRun 1 true false (CpF [] []) 0 [])))) = [1; 2] /\
+  snd (cp_run true false cstoreC (CpRun 1 true false (CpF [] []) 0 [])) = CpRes CpCompleted 2 0 /\
+  snd (cp_run false false cstoreC (CpRun 1 true false (CpF [] []) 0 [])) = CpRes CpCompleted 1 1.
+Proof. split; [|split]; vm_compute; reflexivity. Qed.
+
+(* (D), the code as it is now ([bd = true], [fixed = false]).  Run 1: the read of the out-of-line body fails,
+   the run reports an error and keeps everything.  Run 2, no reset, no fault, ANY resume oracle: success, and all
+   three referenced attachments of the conflicted document are gone (digest 3, shared with the second document,
+   survives only if the resumed feed happens to reach that document) *)
+Definition cstoreD : cp_store :=
+  CpSt [ CpDoc true [(0, CpAtt 1 true)] [[(1, CpAtt 2 true)]] [0];
+         CpDoc false [(0, CpAtt 3 true)] [] [] ]
+       [(0, [(2, CpAtt 3 true)])] [(1, []); (2, []); (3, []); (4, [])] None.
+Definition runD1 : cp_runin := CpRun 1 true false (CpF [0] []) 0 [].
+Definition runD2 (skip : nat) : cp_runin := CpRun 2 false false (CpF [] []) skip [].
+
+Definition C14_compaction_resume_safety_full_statement : Prop :=
+  forall s rs, cp_flags_ok s -> cp_pending s = None ->
+    forall g, cp_referenced s g -> cp_present s g -> cp_present (cp_runs true false s rs) g.
+
+Lemma C14_compaction_resume_refuted : ~ C14_compaction_resume_safety_full_statement.
+Proof.
+  intros F.
+  assert (W : cp_flags_ok cstoreD) by (apply cp_flags_okb_ok; vm_compute; reflexivity).
+  assert (R : cp_referenced cstoreD 1).
+  { eexists. split; [left; reflexivity|]. exists [(0, CpAtt 1 true)]. split; [left; reflexivity|left; reflexivity]. }
+  assert (P : cp_present cstoreD 1) by (left; reflexivity).
+  pose proof (F cstoreD [runD1; runD2 0] W eq_refl 1 R P) as K. vm_compute in K. intuition discriminate.
+Qed.
+
+Example cstoreD_runs :
+  cp_rstatus (snd (cp_run true false cstoreD runD1)) = CpFailed /\
+  (forall skip, (skip <= 2)%nat ->
+     cp_rstatus (snd (cp_run true false (fst (cp_run true false cstoreD runD1)) (runD2 skip))) = CpCompleted /\
+     ~ cp_present (cp_runs true false cstoreD [runD1; runD2 skip]) 1 /\ ~ cp_present (cp_runs true false cstoreD [runD1; runD2 skip]) 2) /\
+  (* the repaired resume keeps all of them *)
+  map fst (cp_atts (cp_runs true true cstoreD [runD1; runD2 2])) = [1; 2; 3].
+Proof.
+  split; [vm_compute; reflexivity|]. split.
+  - intros skip L. destruct skip as [|[|[|k]]]; try lia; (split; [vm_compute; reflexivity|split; vm_compute; intuition discriminate]).
+  - vm_compute. reflexivity.
+Qed.
